@@ -143,6 +143,11 @@ type CertificateValidity struct {
 	Until    time.Time
 	IsStatic bool //does it have an explicit "from"?
 	IsSet    bool //if false, it should inherit default values
+
+	//For validities without an explicit "from", both times depend on when the
+	//configuration was read. This keeps what was configured instead ("until"
+	//or "duration"), so that changes to it can still be told apart.
+	RelativeEnd string
 }
 
 type Manipulations struct {
